@@ -46,3 +46,55 @@ def mk_same_delta(op):
 
 def tasks(tier):
     return [(f'same-delta:{op}', mk_same_delta(op)) for op in OPS]
+
+
+
+# ---------------------------------------------------------------- C02.f: account migration moves the positions, it does not duplicate them
+def mk_transfer(which):
+    def t(world):
+        import z3
+        from specs.handlers import run_handler, KERNELS, short
+        from specs.C12 import find_accounts, leaves
+        fnre = r'transfer_account::transfer_to_new_account$' if which == 'keypair' else r'transfer_account::transfer_to_new_account_pda$'
+        eng, f, args, res = run_handler(world, fnre, kernels=[k for k in KERNELS if k not in (r'set_flag$',)],
+                                        extra_opaque=[r'system_program::transfer$', r'transfer_fee$', r'is_allowed_cpi_for_third_party_id$', r'MarginfiAccount[^:]*::initialize$'])
+        ob = Ob(f'C02.f.{which}', f'transfer_to_new_account ({which}): on every accepting path the new account receives exactly the old account\'s positions and the old account is left with none (all-zero lending account) and disabled, '
+                'so the sum of positions over all accounts is unchanged while no bank total moves (no bank is even passed)',
+                [f.name], 'handler mode; system-program transfer and account initialisation opaque; every accepting path'); ob.paths = len(res)
+        MI = STRUCTS['MarginfiAccount']; li = MI.index('lending_account'); fi = MI.index('account_flags')
+        n_ok = 0
+        for r, okc in ok_paths(res):
+            if ob.witness(eng, r, [okc]) is False: continue
+            n_ok += 1
+            accts = {}
+            for root in r['roots']: accts.update(find_accounts(eng, root))
+            ma = {c: sv for c, sv in accts.items() if 'MarginfiAccount' in sv.ty}
+            old = [c for c, sv in ma.items() if sv.name == c]; new = [c for c, sv in ma.items() if sv.name != c]
+            if len(old) != 1 or len(new) != 1: ob.fail(f'cannot tell old from new account: {list(ma)}'); continue
+            o, n = ma[old[0]], ma[new[0]]
+            ola = o.fields.get(li); nla = n.fields.get(li)
+            ob.queries += 1
+            if isinstance(ola, StructV) and '__zero' in ola.fields and not any(isinstance(k, int) for k in ola.fields): ob.unsat += 1
+            else:
+                lv = []; leaves(eng, ola, '', lv) if isinstance(ola, StructV) else None
+                nz = [p_ for p_, v in lv if not z3.is_true(z3.simplify(ev(v) == 0))] if isinstance(ola, StructV) and '__zero' in ola.fields else ['(lending account not replaced by a zeroed one)']
+                if nz:
+                    ob.sat += 1; ob.cex.append({'ob': ob.oid, 'label': 'the migrated-from account keeps its positions: bank totals now count them twice', 'role': 'positions-duplicated', 'model': {'nonzero': nz[:6]}, 'replay': None})
+                else: ob.unsat += 1
+            ob.queries += 1
+            if isinstance(nla, StructV) and nla.name == f'{old[0]}.{li}' and not [k for k in nla.fields if isinstance(k, int)]: ob.unsat += 1     # the untouched original object of the old account, moved as a whole
+            else:
+                lv = []; leaves(eng, nla, '', lv) if isinstance(nla, StructV) else None
+                bad = [p_ for p_, v in lv if not ev(v).eq(z3.Int(f'{old[0]}.{li}{p_}'))] if isinstance(nla, StructV) and nla.name == f'{old[0]}.{li}' else ['(not the old lending account)']
+                if bad: ob.sat += 1; ob.cex.append({'ob': ob.oid, 'label': 'the new account does not receive exactly the old positions', 'role': 'positions-copied', 'model': {'differs': bad[:6]}, 'replay': None})
+                else: ob.unsat += 1
+            ob.prove(eng, r, [okc], ev(fget(eng, o, 'MarginfiAccount', 'account_flags')) % 2 == 1, 'old account is disabled', role='old-disabled')
+        ob.notes.append(f'{n_ok} accepting paths')
+        ob.need_witness()
+        return [ob]
+    return t
+
+
+_t_c02 = tasks
+def tasks(tier):
+    return _t_c02(tier) + [('transfer_keypair', mk_transfer('keypair')), ('transfer_pda', mk_transfer('pda'))]
